@@ -61,13 +61,15 @@ def within(cs, bits):
 
 def entry_expectation(table, spec, cs, ss):
     """(True|False|None, why, version) for an SRP / anonymous pair"""
+    # there are no SRP or anonymous suites in TLS 1.3 (RFC 8446 B.4): these entry points can only speak
+    # TLS 1.2 and earlier, whatever else the client's settings enable
+    if cs["minVersion"] > V33:
+        return False, "client-settings-allow-only-tls13", None
+    cs = dict(cs, maxVersion=min(cs["maxVersion"], V33), versions=[w for w in cs["versions"] if w <= V33])
     com = P.common_versions(cs, ss)
     if not com:
         return False, "no-common-version", None
     v = max(com)
-    if v == V34:
-        lower = [w for w in com if w < V34]
-        return None, "tls13-has-no-%s-suites%s" % (spec["entry"], ":lower-version-exists" if lower else ""), v
     if v == V30:
         return None, "sslv3", v
     if (cs["requireExtendedMasterSecret"] and not ss["useExtendedMasterSecret"]) or \
@@ -78,21 +80,23 @@ def entry_expectation(table, spec, cs, ss):
         both = family_suites(table, cs, v, kexes) & family_suites(table, ss, v, kexes)
         if not both:
             return False, "no-common-suite", v
-        if spec.get("cred") and not all(table[s]["kex"] == "srp_sha_rsa" for s in both):
-            # RFC 5054 lets a server that also has a certificate use the plain SRP suites; whether it
-            # offers them or insists on authenticating with the certificate is its choice: not judged
-            if not any(table[s]["kex"] == "srp_sha_rsa" for s in both):
-                return None, "server-with-certificate-and-only-plain-srp-suites-in-common", v
-        if spec.get("cred") and any(table[s]["kex"] == "srp_sha_rsa" for s in both):
-            if not within(cs, P.CRED_FACTS[spec["cred"]][1]):
-                if all(table[s]["kex"] == "srp_sha_rsa" for s in both):
-                    return False, "server-key-size-outside-client-limits", v
-                return None, "server-key-size-outside-client-limits-for-some-suites", v
-            if v == V33 and not (P.sig_schemes(cs, v) & P.sig_schemes(ss, v) & P.cred_schemes(spec["cred"], v)):
-                return None, "srp-rsa-without-common-signature-scheme", v
         if not within(cs, spec["srp_bits"]):
             return False, "srp-group-size-outside-client-limits", v
-        return True, "ok", v
+        with_cert = [s for s in both if table[s]["kex"] == "srp_sha_rsa"]
+        plain = [s for s in both if table[s]["kex"] == "srp_sha"]
+        if not with_cert:
+            # RFC 5054: the suites without server authentication do not use the certificate at all
+            return True, "ok-plain-srp-only" if spec.get("cred") else "ok", v
+        cert_ok, cert_why = True, "ok"
+        if not within(cs, P.CRED_FACTS[spec["cred"]][1]):
+            cert_ok, cert_why = False, "server-key-size-outside-client-limits"
+        elif v == V33 and not (P.sig_schemes(cs, v) & P.sig_schemes(ss, v) & P.cred_schemes(spec["cred"], v)):
+            cert_ok, cert_why = None, "srp-rsa-without-common-signature-scheme"
+        if cert_ok is True:
+            return True, "ok", v
+        if plain:
+            return None, "srp-suite-choice-decides:" + cert_why, v
+        return cert_ok, cert_why, v
     # anonymous
     both = family_suites(table, cs, v, ["dh_anon", "ecdh_anon"]) & family_suites(table, ss, v, ["dh_anon", "ecdh_anon"])
     if not both:
@@ -375,10 +379,10 @@ def multipsk_expectation(table, spec, cs, ss):
         if ok is not True:
             return ok, None, why
         if known:
-            # the client offers an identity the server knows, but with a hash that fits none of the
-            # common suites.  RFC 8446 4.2.11: "the server SHOULD perform a non-PSK handshake if
-            # possible" — a SHOULD; run and counted, not judged (reported to the lead)
-            return None, None, "known-psk-fits-no-common-suite:certificate-fallback-expected"
+            # the client offers an identity the server knows, but with a hash that fits none of the common
+            # suites: the pair still shares suite, group and signature scheme for the certificate, and
+            # RFC 8446 4.2.11 has the server perform a non-PSK handshake
+            return True, "none", "certificate-fallback-for-unfitting-psk"
         return True, "none", "certificate-instead-of-psk"
     return False, None, "no-psk-fits-and-no-certificate"
 
